@@ -11,14 +11,14 @@ RoutedTo(r) == Trace[CHOOSE k \in 1..TLen : Trace[k].ev = "Routed" /\ Trace[k].r
 TBackendOf == [r \in TReq |-> RoutedTo(r)]
 
 VARIABLES cst, stored, completed, response, listed, fetched, resp, got, old, seen, l
-A == INSTANCE AppRelay WITH Req <- TReq, Backend <- TBackend, BackendOf <- TBackendOf, SharedResponseKey <- FALSE, ShortRetention <- FALSE
+A == INSTANCE AppRelay WITH Req <- TReq, Backend <- TBackend, BackendOf <- TBackendOf, SharedResponseKey <- FALSE, ShortRetention <- FALSE, ResponseStartTimeUnset <- TRUE
 av == <<cst, stored, completed, response, listed, fetched, resp, got, old, seen>>
 Is(e) == l <= TLen /\ Trace[l].ev = e
 E == Trace[l]
 Step == l' = l + 1 /\ Mark(l)
 Same == UNCHANGED av
 
-TInit == A!Init /\ l = 1 /\ HWMInit
+TInit == A!InitWith(TRUE) /\ l = 1 /\ HWMInit     \* (the harness marks every backend as seen before a round)
 TReset == Is("Reset") /\ Same
                /\ Step
 TRouted == Is("Routed") /\ Same
@@ -49,7 +49,13 @@ TFinal == Is("RelayFinal") /\ Same /\ (\A r \in TReq : cst[r] # "new" => (cst[r]
 \* many overlapping exchanges without per-operation events: every client got the answer to its own request
 TStress == Is("RelayStress") /\ Same /\ E.requests > 0 /\ E.wrong = 0 /\ E.unanswered = 0
                /\ Step
-TNext == TStress \/ TReset \/ TRouted \/ TPutReq \/ TRespVisible \/ TQuery \/ TFetch \/ TRespondBegin \/ TClientRecv \/ TOther \/ TFinal
+\* retention replayed on the real app (beyond the listed properties; reported, not a verdict about C19)
+TCron == /\ \/ (Is("CronRun") /\ E.status = 200)
+            \/ (Is("CronLive") /\ E.ok)
+            \/ (Is("CronCase") /\ A!CronOK(E.old, E.seen, E.had_req, E.had_resp, E.had_parts, E.req_survives, E.resp_survives, E.parts_survive))
+         /\ Same
+               /\ Step
+TNext == TCron \/ TStress \/ TReset \/ TRouted \/ TPutReq \/ TRespVisible \/ TQuery \/ TFetch \/ TRespondBegin \/ TClientRecv \/ TOther \/ TFinal
 TSpec == TInit /\ [][TNext]_<<av, l>>
 
 FetchIsRequest == A!FetchIsRequest
